@@ -63,7 +63,14 @@ func getChildName(path []string, node unserialized, sn schema.Node) (string, err
 			}
 			found = true
 
-			vals, _ := ch.values()
+			vals, err := ch.values()
+			if err != nil {
+				return "", err
+			}
+			if len(vals) != 1 {
+				// eg an empty JSON array or an object as key value
+				return "", schema.NewMissingKeyError([]string{key})
+			}
 			name = vals[0]
 
 			// Validate the value of the key
